@@ -171,7 +171,10 @@ def figure_cases():
     for f, d, sc in min_tri:
         for suf, i in inv3:
             out.append(("minor", f + suf, stack(sc, d, 3), i))
-    for f, d, sc in [("V", 4, HARMMIN), ("viio", 6, HARMMIN), ("iiø", 1, NATMIN)]:
+    for f, d, sc in [("V", 4, HARMMIN), ("viio", 6, HARMMIN), ("iiø", 1, NATMIN), ("III", 2, NATMIN), ("iv", 3, NATMIN),
+                     ("VI", 5, NATMIN), ("VII", 6, NATMIN)]:
+        # i7 and v7 are left out: their seventh is the 7th degree itself, which the natural and the harmonic reading of a minor
+        # key spell differently (the library reads harmonic minor: i7 = C Eb G B); the statement does not decide between them
         for suf, i in inv4:
             out.append(("minor", f + suf, stack(sc, d, 4), i))
     return out
@@ -181,7 +184,7 @@ class Figures(Stream):
     name = "figures"
     checker = None
     pair = "property oracle on roman_parser.analyze_one_chord + Chord[...].chord_extension_pitches vs textbook pitch classes"
-    quick, thorough = 1600, 1600
+    quick, thorough = 2000, 2000
 
     def gen(self, rng, n):
         cases = figure_cases()
